@@ -36,7 +36,7 @@ impl Op {
             Op::Limit(l) => format!("limit {}", l),
         }
     }
-    fn paths(&self) -> Option<String> {
+    pub fn paths(&self) -> Option<String> {
         match self {
             Op::Reg(_, p, _) | Op::Dereg(_, p, _) => {
                 // the registry key is get_path() of the request
@@ -286,7 +286,7 @@ fn check_oracle(cx: &mut Ctx, line: &str, ops: &[Op], paths: &BTreeSet<String>, 
     }
 }
 
-fn case_run(cx: &mut Ctx, ops: &[Op], extra_paths: &[String]) {
+pub fn case_run(cx: &mut Ctx, ops: &[Op], extra_paths: &[String]) {
     let paths = all_paths(ops, extra_paths);
     let line = format!("OBS run {} {}", pathlist(&paths), ops.iter().map(|o| o.token()).collect::<Vec<_>>().join(";"));
     let real = run_real(ops, &paths);
@@ -298,7 +298,7 @@ fn case_run(cx: &mut Ctx, ops: &[Op], extra_paths: &[String]) {
     check_oracle(cx, &line, ops, &paths, &real);
 }
 
-fn case_trace(cx: &mut Ctx, ops: &[Op]) {
+pub fn case_trace(cx: &mut Ctx, ops: &[Op]) {
     let paths = all_paths(ops, &[]);
     let line = format!("OBS trace {} {}", pathlist(&paths), ops.iter().map(|o| o.token()).collect::<Vec<_>>().join(";"));
     let real = run_real(ops, &paths);
@@ -310,7 +310,7 @@ fn case_trace(cx: &mut Ctx, ops: &[Op]) {
     check_oracle(cx, &line, ops, &paths, &real);
 }
 
-fn case_notif(cx: &mut Ctx, mid: u16, tok: &[u8], seq: u32, payload: &[u8], con: bool) {
+pub fn case_notif(cx: &mut Ctx, mid: u16, tok: &[u8], seq: u32, payload: &[u8], con: bool) {
     let line = format!("OBS notif {} {} {} {} {}", mid, hex(tok), seq, hex(payload), con as u8);
     let r = guarded(|| {
         let p = create_notification(mid, tok.to_vec(), seq, payload.to_vec(), con);
